@@ -165,7 +165,13 @@ impl<'tcx> Cx<'tcx> {
             }
             ty::Param(p) => {
                 o.push(("k", s("param")));
-                o.push(("name", s(p.name.as_str())));
+                // anonymous `impl Trait` parameters all print as their bound: make the name unique with the parameter index
+                let nm = p.name.as_str();
+                if nm.starts_with("impl ") {
+                    o.push(("name", s(format!("{}#{}", nm, p.index))));
+                } else {
+                    o.push(("name", s(nm)));
+                }
             }
             ty::Alias(a) => {
                 o.push(("k", s("alias")));
@@ -716,7 +722,9 @@ impl<'tcx> Cx<'tcx> {
                     ty::GenericParamDefKind::Type { .. } => "type",
                     ty::GenericParamDefKind::Const { .. } => "const",
                 };
-                v.push(J::Obj(vec![("name", s(p.name.to_string())), ("kind", s(kind))]));
+                let nm = p.name.to_string();
+                let nm = if nm.starts_with("impl ") { format!("{}#{}", nm, p.index) } else { nm };
+                v.push(J::Obj(vec![("name", s(nm)), ("kind", s(kind))]));
             }
         }
         J::Arr(v)
